@@ -344,7 +344,7 @@ CLock(r) ==
                                           !.expiredAt = now + rttl[r], !.waiters = <<>>]]
   /\ rsend' = [rsend EXCEPT ![r] = E.waiters]
   /\ pc' = [pc EXCEPT ![r] = IF E.waiters = <<>> THEN "cab.save" ELSE "cab.send"]
-  /\ obs' = G(O!OPublish(obs, e, E.disp, E.key, rver[r], now, rttl[r], HasStore[E.disp]))
+  /\ obs' = G(O!OPublish(obs, r, e, E.disp, E.key, rver[r], now, rttl[r], HasStore[E.disp]))
   /\ UNCHANGED <<now, ticks, lru, ent, nextEnt, slock, store, rkey, rdisp, rmeth, rent, rst, rresp, rout, rttl, rver,
                  ppc, pkey, ptodo, pcur, pall, starts, nver, purges, kills, drops>>
 
@@ -356,7 +356,7 @@ HLock(r) ==
   /\ est' = [est EXCEPT ![e] = [E EXCEPT !.status = "hitForPass", !.expiredAt = now + eff, !.waiters = <<>>]]
   /\ rsend' = [rsend EXCEPT ![r] = E.waiters]
   /\ pc' = [pc EXCEPT ![r] = IF E.waiters = <<>> THEN "hfp.save" ELSE "hfp.send"]
-  /\ obs' = G(O!OHfp(obs, e, E.disp, E.key, now, eff, HasStore[E.disp]))
+  /\ obs' = G(O!OHfp(obs, r, e, E.disp, E.key, now, eff, HasStore[E.disp]))
   /\ UNCHANGED <<now, ticks, lru, ent, nextEnt, slock, store, rkey, rdisp, rmeth, rent, rst, rresp, rout, rttl, rver,
                  ppc, pkey, ptodo, pcur, pall, starts, nver, purges, kills, drops>>
 
